@@ -1,5 +1,5 @@
 """Registry: property id -> check function(prop, tier, verdict) -> (level, coverage, assumptions)."""
-import eng_sess, eng_hub, eng_disp, eng_corr
+import eng_sess, eng_hub, eng_disp, eng_corr, eng_data
 
 SESS_ASSUME = [
     'the in-memory connection of the harness behaves like a reliable byte stream (delivered bytes stay readable after the peer closes; writes fail after a close)',
@@ -36,8 +36,35 @@ def c01(prop, tier, verdict):
     return 'exploration', cov, ['protocols raw, json, pb, thrift-binary; codecs json, xml, form, plain, protobuf; pipes over gzip and md5; http / websocket / thrift-struct protocols are not in the workload driver',
                                 'schedules are those the Go scheduler produces under the load profiles (sampled, not enumerated)']
 
+def _vecdiff(case):
+    d = {'seq': 'one', 'mtype': '1', 'method': 'short', 'status': 'nil', 'meta': 'none', 'codec': 'j', 'body': 'b1', 'pipe': 'none'}
+    return ','.join('%s=%s' % (k, v) for k, v in sorted((case.get('vec') or {}).items()) if d.get(k) != v)
+
+def c05(prop, tier, verdict):
+    def sig(line):
+        c = line.get('case', {})
+        what = 'escaped' if line.get('escaped') else ('err' if line.get('err') else 'diff:' + '+'.join(sorted(set(x.split(':', 1)[-1].split('(')[0].split('=')[0].split('#')[0] for x in line.get('diffs', [])))))
+        return 'wire:%s:%s/%s' % (c.get('proto'), what, _vecdiff(c))
+    cov, _ = eng_data.run(prop, tier, verdict, 'Wire', {'K': '3' if tier == 'thorough' else '2'}, sig, 5000,
+                          sample=None if tier == 'thorough' else None, nontrivial=lambda c: _vecdiff(c) != '', seeds=3 if tier == 'thorough' else 1)
+    return 'exploration', cov, ['protocols raw, json, pb, thrift-binary and the websocket json/pb sub-protocols; http and thrift-struct are not driven',
+                                'bodies are byte slices (codec bypass), so the codec id is carried but not exercised here (see C11)',
+                                'small-scope hypothesis: every vector differing from the default message in at most K fields']
+
+def c12(prop, tier, verdict):
+    def sig(line):
+        c = line.get('case', {})
+        return 'xfer:%s:%s:pipe=%s:payload=%s:%s' % (c.get('kind'), c.get('proto', '-'), c.get('pipe') if len(c.get('pipe', '')) < 8 else 'len%d' % len(c.get('pipe')), c.get('payload'),
+                                                   'escaped' if line.get('escaped') else ('err' if line.get('err') else 'bad'))
+    cov, _ = eng_data.run(prop, tier, verdict, 'Xfer', {'MaxLen': '4'}, sig, 800, seeds=3 if tier == 'thorough' else 1,
+                          nontrivial=lambda c: c.get('pipe') != '')
+    return 'exploration', cov, ['filters gzip (two levels) and md5; pipes of length <= 4 exhaustively, longer ones by pattern',
+                                'single-byte corruptions (3 masks per position) plus truncation/extension of payloads up to 200 bytes']
+
 CHECKS = {
     'C01': c01,
+    'C05': c05,
+    'C12': c12,
     'C02': c02,
     'C08': c02,
     'C07': c07,
